@@ -33,7 +33,7 @@ except BaseException:
     raise
 short = sh('git', '-C', '/repo', 'rev-parse', '--short', 'HEAD').stdout.strip()
 print('committed', short, summary)
-if fid != '-':
+for fid in ([] if fid == '-' else fid.split(',')):
     kf = os.path.join(ROOT, 'known_findings.json')
     items = json.load(open(kf))
     wf = os.path.join(ROOT, 'findings', f'{prop}.json')
@@ -50,4 +50,4 @@ if fid != '-':
         json.dump(work, open(wf, 'w'), indent=1)
     if entry.get('replay'):
         r = sh(os.path.join(ROOT, 'run_check.py'), prop, '--replay', os.path.join(ROOT, entry['replay']), cwd=ROOT)
-        print('pinned replay after fix: exit', r.returncode, r.stdout.strip()[-300:], r.stderr.strip()[-300:])
+        print(fid, 'pinned replay after fix: exit', r.returncode, r.stdout.strip()[-200:], r.stderr.strip()[-300:])
